@@ -9,10 +9,20 @@
   proven-sound checker, labelled as such (`…_partial` below).
   `SameSpan`, `isRowEchelon`, `isRREF`, `rank` are tied to Mathlib's `Submodule.span`, `Matrix.IsRowEchelon`,
   `Matrix.IsReducedRowEchelon`, `Matrix.rank` over `ZMod 2` in M4riProofs/GaussMathlib.lean.
+  Added (M4riProofs/PleNaive.lean): the PLUQ-based routine `mzd_echelonize_pluq` is now mirrored on top of a
+  factorisation (`PN.echelonizePluq`, M4ri/Glue.lean; tied word for word by the `glue_echelonize` phase of the
+  correspondence run, instantiated with the library's own factorisation) and proved: on any `IsPLE` certificate the
+  non-full result passes `checkEchelon` (row space, echelon shape, rank); on any profile-PLUQ certificate the full result
+  is THE reduced row echelon form (`echelonizePluq_naive_full_eq` for the naive factorisation). A bare `IsPLUQ`
+  certificate is NOT enough (`echelonizePluq_generic_full_false`, a kernel-checked counterexample): the pivot columns
+  must be the column rank profile, which `check_pluq`'s second output tests per run. Mathlib forms: `ML.rank_mat`,
+  `ML.mat_rref`, `ML.mat_isReducedRowEchelon`.
 -/
 import M4riProofs.Gauss
 import M4riProofs.GaussMathlib
 import M4riProofs.M4riElim
+import M4riProofs.PleNaive
+import M4riProofs.MathlibSpec
 namespace M4ri.Props.C02
 open M4ri M4ri.BMat
 
@@ -96,5 +106,22 @@ def C02_full (ech : BMat → Bool → BMat × Nat) : Prop :=
   ∀ A : BMat, A.WF → ∀ full, checkEchelon A (ech A full).1 (ech A full).2 full = true
 
 example : C02_full (fun A full => gaussDelayed A 0 full) := fun _ hA full => checkEchelon_gauss hA full
+
+#check @M4ri.BMat.PN.echelonizePluq_ple
+#check @M4ri.BMat.PN.echelonizePluq_pluq
+#check @M4ri.BMat.PN.echelonizePluq_naive_full
+#check @M4ri.BMat.PN.echelonizePluq_naive_ple
+#check @M4ri.BMat.PN.echelonizePluq_naive_full_eq
+#check @M4ri.BMat.PN.echelonizePluq_generic_full_false
+#check @M4ri.BMat.PN.pluqNaive_profile
+#check @M4ri.BMat.PN.checkEchelon_complete
+#check @M4ri.BMat.ML.rank_mat
+#check @M4ri.BMat.ML.rank_mat_gauss
+#check @M4ri.BMat.ML.rank_of_rankCert
+#check @M4ri.BMat.ML.rankCert_iff_rank
+#check @M4ri.BMat.ML.sameSpan_iff_span_rows
+#check @M4ri.BMat.ML.mat_isRowEchelon
+#check @M4ri.BMat.ML.mat_isReducedRowEchelon
+#check @M4ri.BMat.ML.mat_rref
 
 end M4ri.Props.C02
